@@ -117,10 +117,10 @@ func (y *YieldWriter) Write(p []byte) (int, error) {
 func (y *YieldWriter) Close() error { return y.W.Close() }
 
 // SockPair is an AF_UNIX stream socket pair; both ends are *net.UnixConn, so
-// vecnet takes the recvmsg path on them.
+// vecnet takes the recvmsg path on them. No other descriptor refers to the
+// sockets: closing an end is seen by the peer at once.
 type SockPair struct {
-	A, B   net.Conn
-	fa, fb *os.File
+	A, B net.Conn
 }
 
 func NewSockPair() (*SockPair, error) {
@@ -131,35 +131,50 @@ func NewSockPair() (*SockPair, error) {
 	fa := os.NewFile(uintptr(fds[0]), "sp-a")
 	fb := os.NewFile(uintptr(fds[1]), "sp-b")
 	a, err := net.FileConn(fa)
+	fa.Close()
 	if err != nil {
+		fb.Close()
 		return nil, err
 	}
 	b, err := net.FileConn(fb)
+	fb.Close()
 	if err != nil {
+		a.Close()
 		return nil, err
 	}
-	return &SockPair{A: a, B: b, fa: fa, fb: fb}, nil
+	return &SockPair{A: a, B: b}, nil
 }
 
 const tiocinq = 0x541B
 
-func inq(f *os.File) int {
+// inq returns the number of unread bytes in the receive queue of c.
+func inq(c net.Conn) int {
+	sc, ok := c.(syscall.Conn)
+	if !ok {
+		return 0
+	}
+	rc, err := sc.SyscallConn()
+	if err != nil {
+		return 0
+	}
 	var n int32
-	syscall.Syscall(syscall.SYS_IOCTL, f.Fd(), tiocinq, uintptr(unsafe.Pointer(&n)))
+	rc.Control(func(fd uintptr) {
+		syscall.Syscall(syscall.SYS_IOCTL, fd, tiocinq, uintptr(unsafe.Pointer(&n)))
+	})
 	return int(n)
 }
 
 // DrainedB waits until end B's receive queue is empty (its reader consumed
 // everything written to A so far). It reports false on timeout.
-func (s *SockPair) DrainedB(d time.Duration) bool { return drained(s.fb, d) }
+func (s *SockPair) DrainedB(d time.Duration) bool { return drained(s.B, d) }
 
 // DrainedA is the same for end A.
-func (s *SockPair) DrainedA(d time.Duration) bool { return drained(s.fa, d) }
+func (s *SockPair) DrainedA(d time.Duration) bool { return drained(s.A, d) }
 
-func drained(f *os.File, d time.Duration) bool {
+func drained(c net.Conn, d time.Duration) bool {
 	deadline := time.Now().Add(d)
 	for i := 0; ; i++ {
-		if inq(f) == 0 {
+		if inq(c) == 0 {
 			return true
 		}
 		if i < 100 {
@@ -173,8 +188,5 @@ func drained(f *os.File, d time.Duration) bool {
 	}
 }
 
-// Close closes the spare descriptors (the Conns are closed by their users).
-func (s *SockPair) Close() {
-	s.fa.Close()
-	s.fb.Close()
-}
+// Close is kept for callers' symmetry; the Conns are closed by their users.
+func (s *SockPair) Close() {}
